@@ -484,7 +484,7 @@ def nontrivial_shape(succ) -> bool:
 # --------------------------------------------------------------------------
 # naming
 
-STYLES = ["num", "perm", "bytecode", "alpha", "gen"]
+STYLES = ["num", "perm", "bytecode", "alpha", "gen", "zpad"]
 
 # names in the generator's own namespace (blocks named like generated blocks
 # and regions); restructuring must never hand out one of them again
@@ -512,6 +512,11 @@ def restyle(succ, style="num", perm=None):
             # a permutation of the pool prefix, so that names are distinct
             order = sorted(range(len(pool)), key=lambda j: (p[j % n] if n else 0, j))
             names = {i: pool[order[k]] for k, i in enumerate(sorted(succ))}
+    elif style == "zpad":
+        # numerals that differ only in leading zeros ('1', '01', '001'): equal as numbers, different as strings, so
+        # any ordering that is not a plain string comparison ties on them
+        p = perm if perm is not None else list(range(n))
+        names = {i: "0" * (p[i] % 3) + str(p[i] // 3) for i in succ}
     elif style == "alpha":
         p = perm if perm is not None else list(range(n))
         names = {i: "b" + "abcdefghijklmnopqrstuvwxyz"[p[i] % 26] + str(p[i] // 26) for i in succ}
